@@ -1,0 +1,11 @@
+//go:build verif
+
+package jpackage
+
+// Contracts checked by /verif (vcgo). Comment-only: no executable code.
+
+//@ func GetClassName
+//@ pure
+
+//@ func GetMethodName
+//@ pure
